@@ -480,7 +480,15 @@ def open_system(case, rng, cls, faces, meta, g, m):
     if not np.all(np.isfinite(x)):
         return None, cov, maxerr, 'open', {}, False, 'non-finite solution'
     I1 = phi.domainIntegral()
-    full = np.asarray(x).reshape(g.full_shape())      # ghost values as solved (they satisfy the boundary rows)
+    # boundary fluxes are read off the variable as it reports itself after the step (solved interior, boundary values re-imposed from
+    # its boundary conditions); on periodic axes the solved ghost values are kept (the wrap is the C03 finding, not this property)
+    full = np.asarray(phi._value, dtype=float).reshape(g.full_shape()).copy()
+    xs = np.asarray(x).reshape(g.full_shape())
+    for k_ in spec['periodic']:
+        for j_ in (0, -1):
+            idx_ = [slice(None)] * g.nd
+            idx_[k_] = j_
+            full[tuple(idx_)] = xs[tuple(idx_)]
     meas = 'exact'
     net = -boundary_functional(g, full, 'diffusion', [-d for d in D], measure=meas)   # diffusion flux is -D grad
     net = boundary_functional(g, full, 'diffusion', D, measure=meas)               # sum V div(D grad phi)
@@ -493,6 +501,14 @@ def open_system(case, rng, cls, faces, meta, g, m):
     A.data = np.abs(A.data)
     rowscale = (A @ np.abs(x) + np.abs(b))[rows].reshape(g.dims)
     tol = 1e-9 * dt * float((V * rowscale).sum())
+    # re-imposed boundary values carry the solver's norm-wise backward error relative to their own (possibly tiny) rows
+    s_all = np.asarray(A @ np.abs(x)).ravel() + np.abs(b)
+    gm = np.ones(len(s_all), dtype=bool)
+    gm[rows] = False
+    sb = s_all[gm]
+    sb = sb[sb > 0]
+    amp = float(np.max(s_all)) / float(np.min(sb)) if sb.size else 1.0
+    tol = tol * (1.0 + 64.0 * len(s_all) * np.finfo(float).eps * amp / 1e-9)
     d = abs((I1 - I0) - dt * net)
     maxerr['open'] = d / tol * 1e-9 if tol > 0 else 0.0
     cov['open:%s' % scheme] = 1
